@@ -1,10 +1,12 @@
 pub mod c01;
 pub mod c02;
+pub mod c05;
 pub mod c06;
 pub mod c07;
 pub mod c13;
 pub mod c15;
 pub mod c16;
+pub mod c18;
 pub mod c19;
 pub mod c20;
 
@@ -14,11 +16,13 @@ pub fn table() -> Vec<(&'static str, PropFn)> {
     vec![
         ("C01", c01::run as PropFn),
         ("C02", c02::run as PropFn),
+        ("C05", c05::run as PropFn),
         ("C06", c06::run as PropFn),
         ("C07", c07::run as PropFn),
         ("C13", c13::run as PropFn),
         ("C15", c15::run as PropFn),
         ("C16", c16::run as PropFn),
+        ("C18", c18::run as PropFn),
         ("C19", c19::run as PropFn),
         ("C20", c20::run as PropFn),
     ]
